@@ -117,8 +117,7 @@ func (cl *cluster) learnDead(k, x *clNode) {
 	k.n.Events().NotifyLeave(cl.mlnode(k, x))
 }
 
-// drain moves queued broadcasts of every live node into the harness outboxes and
-// finishes lifecycle calls that have returned.
+// settle runs the system to quiescence and finishes lifecycle calls that returned.
 func (cl *cluster) settle() {
 	for round := 0; round < 4; round++ {
 		vsched.Quiesce()
@@ -126,14 +125,6 @@ func (cl *cluster) settle() {
 		for _, k := range cl.nodes {
 			if !k.up() {
 				continue
-			}
-			for _, m := range k.n.Outbox() {
-				s := string(m)
-				if !k.outbox[s] {
-					k.outbox[s] = true
-					progress = true
-				}
-				cl.noteIntent(k, m)
 			}
 			if k.leaveTh != nil && k.leaveTh.Done() {
 				k.leaveTh = nil
@@ -147,6 +138,21 @@ func (cl *cluster) settle() {
 			return
 		}
 	}
+}
+
+// gossip is memberlist taking the node's queued broadcasts (which also completes
+// "broadcast sent" notifications) and putting them on the network.
+func (cl *cluster) gossip(k *clNode) bool {
+	any := false
+	for _, m := range k.n.Outbox() {
+		s := string(m)
+		if !k.outbox[s] {
+			k.outbox[s] = true
+		}
+		any = true
+		cl.noteIntent(k, m)
+	}
+	return any
 }
 
 // noteIntent records the Lamport times of intents a node originated or re-broadcast.
@@ -313,6 +319,10 @@ func (cl *cluster) apply(act string) bool {
 		}
 		cl.used++
 		a.phase = "leaving"
+		if lt := serf.VDump(a.n.S).Clock; lt > cl.leaveLT[a.name] {
+			cl.leaveLT[a.name] = lt // the leave intent carries the clock value at the call
+		}
+		a.knows[fmt.Sprintf("%s@%d", a.name, cl.leaveLT[a.name])] = true
 		h := vsched.Spawn("leave-"+a.name, func() { a.n.S.Leave() })
 		a.leaveTh = &h
 	case "crash":
@@ -327,7 +337,7 @@ func (cl *cluster) apply(act string) bool {
 		a.n.S.Shutdown()
 	case "restart":
 		a := node(f[1])
-		if a == nil || a.up() {
+		if a == nil || a.up() || !cl.deathKnown(a) {
 			return false
 		}
 		cl.used++
@@ -344,6 +354,10 @@ func (cl *cluster) apply(act string) bool {
 			return false
 		}
 		cl.used++
+		if lt := serf.VDump(a.n.S).Clock; lt > cl.leaveLT[x.name] {
+			cl.leaveLT[x.name] = lt
+		}
+		a.knows[fmt.Sprintf("%s@%d", x.name, serf.VDump(a.n.S).Clock)] = true
 		a.threads = append(a.threads, vsched.Spawn("forceleave-"+a.name, func() { a.n.S.RemoveFailedNode(x.name) }))
 	case "cut":
 		// partition: node f[1] alone against the rest
@@ -409,6 +423,12 @@ func (cl *cluster) apply(act string) bool {
 			return false
 		}
 		cl.pushPull(a, b, false)
+	case "gossip":
+		a := node(f[1])
+		if a == nil || !a.up() || serf.VDump(a.n.S).IntentQueue == 0 {
+			return false
+		}
+		cl.gossip(a)
 	case "tick":
 		vsched.Advance(int64(1500 * time.Millisecond))
 	default:
@@ -495,10 +515,13 @@ func (cl *cluster) enabled() []string {
 		if budget && a.phase == "run" {
 			out = append(out, fmt.Sprintf("leave %d", a.idx))
 		}
+		if a.up() && serf.VDump(a.n.S).IntentQueue > 0 {
+			out = append(out, fmt.Sprintf("gossip %d", a.idx))
+		}
 		if budget && cl.faults && a.up() {
 			out = append(out, fmt.Sprintf("crash %d", a.idx))
 		}
-		if budget && cl.faults && !a.up() && a.epoch == 0 {
+		if budget && cl.faults && !a.up() && a.epoch == 0 && cl.deathKnown(a) {
 			out = append(out, fmt.Sprintf("restart %d", a.idx))
 		}
 		if budget && cl.faults && a.up() && len(cl.nodes) > 2 && cl.side[a.idx] == 0 && cl.allHealed() {
@@ -528,6 +551,17 @@ func (cl *cluster) pending() bool {
 	return false
 }
 
+// deathKnown: memberlist has reported the node dead at every live node that held
+// it alive (a restart is modelled only after failure detection has run).
+func (cl *cluster) deathKnown(a *clNode) bool {
+	for _, k := range cl.nodes {
+		if k != a && k.up() && k.view[a.name] == 1 {
+			return false
+		}
+	}
+	return true
+}
+
 func (cl *cluster) allHealed() bool {
 	for _, s := range cl.side {
 		if s != 0 {
@@ -543,7 +577,7 @@ func (cl *cluster) key() string {
 		fmt.Fprintf(&sb, "[%s %s e%d side%d ", k.name, k.phase, k.epoch, cl.side[k.idx])
 		if k.up() {
 			d := serf.VDump(k.n.S)
-			fmt.Fprintf(&sb, "st=%s clk=%d ", d.State, d.Clock)
+			fmt.Fprintf(&sb, "st=%s clk=%d q=%d ", d.State, d.Clock, d.IntentQueue)
 			for _, m := range d.Members {
 				fmt.Fprintf(&sb, "%s:%s:%d ", m.Name, m.Status, m.StatusLTime)
 			}
@@ -592,7 +626,13 @@ func (cl *cluster) closure() {
 	}
 	prev := ""
 	for round := 0; round < 12; round++ {
-		// finish lifecycle calls
+		// queued broadcasts go out; lifecycle calls finish
+		for _, k := range cl.nodes {
+			if k.up() {
+				cl.gossip(k)
+			}
+		}
+		cl.settle()
 		for t := 0; t < 4 && cl.pending(); t++ {
 			vsched.Advance(int64(1500 * time.Millisecond))
 			cl.settle()
@@ -701,6 +741,9 @@ func (cl *cluster) oracle(hist []string) {
 					if !handed {
 						want = []string{"left", "failed"}
 					}
+				} else if !cl.graceful[name] && cl.leaveLT[name] > 0 && cl.leaveLT[name] == cl.joinLT[name] {
+					// a force-leave concurrent with the join (equal Lamport times): unordered, both accepted
+					want = []string{"left", "failed"}
 				} else {
 					want = []string{"failed"}
 				}
@@ -713,7 +756,7 @@ func (cl *cluster) oracle(hist []string) {
 			}
 			if !ok {
 				truth := strings.Join(want, "|")
-				cl.violate(fmt.Sprintf("settled: truth=%s reported=%s", truth, got), fmt.Sprintf("truth=%s reported=%s", truth, got),
+				cl.violate(fmt.Sprintf("settled: truth=%s reported=%s member=%d", truth, got, x.idx), fmt.Sprintf("truth=%s reported=%s member=%d", truth, got, x.idx),
 					fmt.Sprintf("after healing, delivering everything and syncing until nothing changes, running node %s reports %s as %s; %s is %s (epoch %d, newest own join %d, newest leave intent %d, graceful leave completed: %v) so it should be %s.\nstates: %s", k.name, name, got, name, x.phase, x.epoch, cl.joinLT[name], cl.leaveLT[name], cl.graceful[name], truth, cl.key()))
 			}
 		}
